@@ -703,7 +703,17 @@ func c19Gen(t *rapid.T) c19Case {
 		for k := rapid.IntRange(0, 3).Draw(t, "nsel"); k > 0; k-- {
 			if sel := c19GenSelector(t, false); sel != "" && !strings.HasPrefix(sel, "-") {
 				c.Sels = append(c.Sels, sel)
+				// related selectors: the same text continued (a longer name, a wider regexp, one more clause) or repeated
+				if rapid.IntRange(0, 2).Draw(t, "related") == 0 {
+					ext := sel + rapid.SampledFrom([]string{"b", "a", "b=a", "=a", "*", "|b", "/a", "/=b", "", "$"}).Draw(t, "ext")
+					if _, err := gts.Selector(ext); err == nil {
+						c.Sels = append(c.Sels, ext)
+					}
+				}
 			}
+		}
+		if len(c.Sels) > 1 && rapid.Bool().Draw(t, "swap") {
+			c.Sels[0], c.Sels[len(c.Sels)-1] = c.Sels[len(c.Sels)-1], c.Sels[0]
 		}
 		return c
 	}
